@@ -44,7 +44,7 @@ v("C01","entry reallocated per opcode",LD,"\tvar entry = &BinEntry{}\n\tfor {","
 v("C01","footer reads trailer before summing",LD,"\tcrc1 := l.crc.Sum64()\n\tif crc2, err := l.readUint64(); err != nil {","\tcrc2, err := l.readUint64()\n\tcrc1 := l.crc.Sum64()\n\tif err != nil {","R6.crc/Footer/sum-before-trailer")
 v("C01","remainMember off by one",RD,"lr.remainMember = n - uint32(i) - 1","lr.remainMember = n - uint32(i)","R5.chunk/hash/remain-formula")
 v("C01","stream group name read from outer reader",RD,"\t\t\t// cname\n\t\t\tif _, err := r.ReadString(); err != nil {\n\t\t\t\treturn nil, err\n\t\t\t}\n\n\t\t\t// last_cg_entry_id timestamp second","\t\t\t// cname\n\t\t\tif _, err := lr.ReadString(); err != nil {\n\t\t\t\treturn nil, err\n\t\t\t}\n\n\t\t\t// last_cg_entry_id timestamp second","R3.capture")
-v("C01","dump version big endian",LD,"binary.Write(w, binary.LittleEndian, uint16(ToVersion))","binary.Write(w, binary.BigEndian, uint16(ToVersion))","R7.dump/createValueDump/version")
+v("C01","dump version big endian",LD,"binary.Write(w, binary.LittleEndian, uint16(ToVersion))","binary.Write(w, binary.BigEndian, uint16(ToVersion))","R7.dump/createValueDump")
 v("C01","14-bit length reads two more bytes",RD,"\t\tvar u2 uint8\n\t\tu2, err = r.readUint8()","\t\tvar u2 uint16\n\t\tu2, err = r.readUint16()","R2.grammar/prim/readEncodedLength")
 v("C01","select db stored in entry only",LD,"\t\t\tl.db = dbnum","\t\t\tentry.DB = dbnum","R4.bind/select-db")
 v("C01","idle opcode constant",RD,"rdbFlagIdle      = 0xf8","rdbFlagIdle      = 0xf6","R1.const/rdbFlagIdle")
